@@ -8,6 +8,7 @@ package main
 //   regress/*.diff          the repairs of the defects found on the pinned tree, applied in
 //                           reverse (re-introducing the defect)
 //   seeded/<id>/patch.diff  changes written by independent agents (applied forward)
+//   compound/*.diff         a refactoring of equiv/ with a break on top (applied forward)
 
 import (
 	"encoding/json"
@@ -89,6 +90,26 @@ func loadMutants(verif, id string) []mutant {
 					if p == id {
 						out = append(out, mutant{ID: "regress/" + n, Property: id, Kind: "break", Rule: m[n].Rule[id], patch: filepath.Join(verif, "regress", n), reverse: true})
 					}
+				}
+			}
+		}
+	}
+	// compound variants: one of the agents' refactorings with a break applied on top of it - the
+	// generalised machinery must still see the break in the refactored shape
+	if cidx, err := os.ReadFile(filepath.Join(verif, "compound", "INDEX.json")); err == nil {
+		var m map[string]struct {
+			Property string `json:"property"`
+			Rule     string `json:"rule"`
+		}
+		if json.Unmarshal(cidx, &m) == nil {
+			var names []string
+			for n := range m {
+				names = append(names, n)
+			}
+			sort.Strings(names)
+			for _, n := range names {
+				if m[n].Property == id {
+					out = append(out, mutant{ID: "compound/" + n, Property: id, Kind: "break", Rule: m[n].Rule, patch: filepath.Join(verif, "compound", n)})
 				}
 			}
 		}
